@@ -369,7 +369,12 @@ func c17Merge(c *rig.Ctx) {
 		if i < 3 {
 			c.Sample(map[string]any{"base": clipS(string(jMarshal(base))), "left_edits": le, "right_edits": re, "expected_conflict": want.conflict})
 		}
-		for _, mix := range []string{"stored", "in-memory", "mixed"} {
+		memBad := false
+		memStart := lim.total
+		for _, mix := range []string{"in-memory", "stored", "mixed"} {
+			if mix == "stored" {
+				memBad = lim.total != memStart
+			}
 			wrap := func(v any, stored bool) sql.JSONWrapper {
 				if stored {
 					return x.index(v)
@@ -403,6 +408,10 @@ func c17Merge(c *rig.Ctx) {
 				return w
 			}
 			key := "c17/merge/" + c17MergeClass(base, left, right)
+			if mix != "in-memory" && !memBad {
+				// the same triple merges correctly from in-memory documents: the stored-document differ is what misbehaves
+				key += "+only-with-stored-documents"
+			}
 			if panicked != "" {
 				// a panic inside MergeJSON is reported as a violation of its own (never swallowed); the run continues
 				lim.Violation(key+"/panic", "MergeJSON panicked: "+panicked, witness("panic"))
